@@ -146,7 +146,24 @@ impl Meta {
     pub fn write(page_pool: &PagePool, fd: &File, meta: &Meta) -> std::io::Result<()> {
         let mut page = page_pool.alloc_fat_page();
         meta.encode_to(&mut page.as_mut()[..META_SIZE]);
+        #[cfg(nomt_verif)]
+        {
+            use std::os::fd::AsRawFd as _;
+            crate::verif::io(
+                fd.as_raw_fd(),
+                crate::verif::Op::Write {
+                    off: 0,
+                    data: &page[..],
+                },
+                "meta.write",
+            )?;
+        }
         fd.write_all_at(&page[..], 0)?;
+        #[cfg(nomt_verif)]
+        {
+            use std::os::fd::AsRawFd as _;
+            crate::verif::io(fd.as_raw_fd(), crate::verif::Op::Fsync, "meta.fsync")?;
+        }
         fd.sync_all()?;
         Ok(())
     }
